@@ -39,7 +39,7 @@ def showB : BErr → String
   | .panic => "panic"
   | .verify e => "verify." ++ (match e with
       | .ok => "ok" | .size => "size" | .height => "height" | .pheight => "height" | .pround => "pround"
-      | .ptype => "ptype" | .sig => "sig" | .power => "power" | .panic => "panic")
+      | .ptype => "ptype" | .sig => "sig" | .slot => "slot" | .power => "power" | .panic => "panic")
 
 def step (s : St) (line : String) : St × String :=
   let line := (line.splitOn "|").headD ""
@@ -47,7 +47,7 @@ def step (s : St) (line : String) : St × String :=
   let g (k : String) : String := (kv ws k).getD ""
   match ws with
   | "cfg" :: _ =>
-    ({ s with cfg := ⟨g "checkValHash" != "0", ⟨true, true, g "nilCommit" != "0"⟩⟩ }, "ok")
+    ({ s with cfg := ⟨g "checkValHash" != "0", ⟨true, true, g "nilCommit" != "0", g "slotCheck" != "0"⟩⟩ }, "ok")
   | "state" :: _ =>
     match parseInt (g "lbh"), parseBid (g "lbid"), Hex.decode (g "app"), Hex.decode (g "rec"), Hex.decode (g "vh"),
           parseVals (g "vals"), parseVals (g "lastvals") with
